@@ -712,6 +712,14 @@ async fn run_scenario(scn: &Scenario, watchdog: Duration) -> Outcome {
                     }
                 }
             }
+            if got < want && last_progress.elapsed() > rto_max * 10 {
+                if let Some(w) = repeat_witness(&rig, heal, rto_max * 10) {
+                    if canary_lag.load(Ordering::Relaxed) < 100 {
+                        end = EndReason::StallRetry(format!("repeat: {w}"));
+                        break;
+                    }
+                }
+            }
             let quiet_for = quiet_duration(&rig);
             if quiet_for > rto_max * 10
                 && last_progress.elapsed() > rto_max * 10
@@ -832,6 +840,61 @@ fn retry_witness(rig: &Rig, heal: u64) -> Option<String> {
                 t4
             ));
         }
+    }
+    None
+}
+
+/// Repeat witness: after the heal the association keeps exchanging packets - DATA of one direction
+/// was handed to the receiver at least 8 times and at least 8 SACKs came back and were handed to
+/// the sender, over a span of at least `span` - yet every one of those SACKs reports the same
+/// cumulative TSN and the same gap blocks.  On a network that delivers everything, a sender that
+/// still owes data and whose acknowledgement state does not move through that many round trips
+/// is not going to complete (it retransmits something the receiver does not lack).
+fn repeat_witness(rig: &Rig, heal: u64, span: Duration) -> Option<String> {
+    let log = rig.wire.log.lock();
+    for dir in [Dir::A2B, Dir::B2A] {
+        let mut sacks: Vec<(u64, u32, Vec<(u16, u16)>)> = vec![];
+        for c in log.iter().filter(|c| c.dir == dir.rev()) {
+            if let Some(p) = &c.sctp {
+                for s in p.sacks() {
+                    for t in c.deliveries.iter().filter(|t| **t >= heal) {
+                        sacks.push((*t, s.cum_tsn, s.gaps.clone()));
+                    }
+                }
+            }
+        }
+        sacks.sort_by_key(|x| x.0);
+        // the longest suffix of identical acknowledgement states
+        let Some(last) = sacks.last().cloned() else { continue };
+        let tail: Vec<&(u64, u32, Vec<(u16, u16)>)> = sacks.iter().rev().take_while(|s| s.1 == last.1 && s.2 == last.2).collect();
+        if tail.len() < 8 {
+            continue;
+        }
+        let t_first = tail.last().map(|s| s.0).unwrap_or(0);
+        let t_last = last.0;
+        if t_last.saturating_sub(t_first) < span.as_micros() as u64 {
+            continue;
+        }
+        let mut data_deliveries = 0usize;
+        for c in log.iter().filter(|c| c.dir == dir) {
+            if let Some(p) = &c.sctp {
+                if p.data().next().is_some() {
+                    data_deliveries += c.deliveries.iter().filter(|t| **t >= t_first && **t <= t_last).count();
+                }
+            }
+        }
+        if data_deliveries < 8 {
+            continue;
+        }
+        return Some(format!(
+            "dir={} {} SACKs over {} ms after the heal all report cum={} gaps={:?}; {} DATA datagrams were delivered meanwhile",
+            dir.name(),
+            tail.len(),
+            (t_last - t_first) / 1000,
+            last.1,
+            last.2,
+            data_deliveries
+        ));
     }
     None
 }
